@@ -87,4 +87,8 @@ func run(c *Ctx) {
 	c.Note(fmt.Sprintf("supporting measurement: 3000 publishes with one consumer blocked inside Consume took %v (publisher never waits for a consumer)", time.Since(t0)))
 	r.Resume()
 	w.S.Close()
+	for _, hevc := range []bool{false, true} {
+		ml.RecordOutcome(c, ml.ScSelfStop(false, hevc), "c04")
+		ml.RecordOutcome(c, ml.ScSelfStop(true, hevc), "c04")
+	}
 }
